@@ -176,7 +176,9 @@ class EvalMixin:
         hi2 = norm(hi, n)
         i = z3.Int("sl!i")
         arr = z3.Lambda([i], z3.Select(v.arr, i + lo2))
-        return SymStr(arr, sym_max(hi2 - lo2, 0))
+        st = SymStr(arr, self.clamp0(hi2 - lo2))
+        st.alphabet = getattr(v, "alphabet", None)
+        return st
 
     def to_str(self, v):
         v = self.resolve(v)
@@ -494,6 +496,9 @@ class EvalMixin:
             if full in getattr(self, "external_consts", {}):
                 return self.external_consts[full]
             return ExternalRef(v.full, name)
+        if isinstance(v, SliceVal):
+            if name in ("start", "stop", "step"):
+                return getattr(v, name)
         if isinstance(v, FuncVal):
             if name == "__wrapped__":
                 return v
@@ -559,6 +564,10 @@ class EvalMixin:
                 return v[c - n]
             if isinstance(idx, slice):
                 return v[idx]
+            if isinstance(idx, SliceVal):
+                if all(x is None or isinstance(x, int) for x in (idx.start, idx.stop, idx.step)):
+                    return v[slice(idx.start, idx.stop, idx.step)]
+                raise Unsupported("symbolic slice of a concrete sequence")
             raise PyExc("TypeError", "list indices must be integers")
         if isinstance(v, dict):
             if isinstance(idx, EnumVal) and not idx.concrete:
@@ -599,7 +608,22 @@ class EvalMixin:
                     raise PyExc("IndexError", "index out of range")
             return v.get(idx)
         if isinstance(v, SymStr):
-            raise Unsupported("SymStr index")
+            if isinstance(idx, SliceVal):
+                if idx.step not in (None, 1):
+                    raise Unsupported("SymStr slice step")
+                return self.symstr_slice(v, idx.start, idx.stop)
+            i = _as_int(idx)
+            n = v.length
+            if self.branch(i < 0):
+                i = n + i
+                if not self.branch(i >= 0):
+                    raise PyExc("IndexError", "string index out of range")
+            elif not self.branch(i < n):
+                raise PyExc("IndexError", "string index out of range")
+            one = z3.Int("ch!i")
+            st = SymStr(z3.Lambda([one], z3.Select(v.arr, one + i)), 1)
+            st.alphabet = getattr(v, "alphabet", None)
+            return st
         if isinstance(v, Obj):
             m = v.cls.find_method(self.repo, "__getitem__")
             if m is not None:
@@ -620,6 +644,8 @@ class EvalMixin:
     def getslice(self, v, lo, hi, st):
         v = self.resolve(v)
         lo, hi, st = self.resolve(lo), self.resolve(hi), self.resolve(st)
+        if isinstance(v, SymStr) and st in (None, 1):
+            return self.symstr_slice(v, lo, hi)
         if isinstance(v, (list, tuple, str)) and all(x is None or isinstance(x, int) for x in (lo, hi, st)):
             return v[slice(lo, hi, st)]
         if isinstance(v, Obj):
